@@ -6,7 +6,7 @@ import (
 )
 
 var c07Texts = []string{"a", "1", "\"s\"", "(", ")", "{", "}", ";", "+", ":=", "if", "\n",
-	"[", "]", ",", ":", "func", "return", "for", "in", "try", "except", "-", "not", ".", "else", "finally", "sink", "mutex", "import", "as", "let", "break"}
+	"[", "]", ",", ":", "func", "return", "for", "in", "try", "except", "-", "not", ".", "else", "finally", "sink", "mutex", "import", "as", "let", "break", "elif", ">", "'x", "and", "*"}
 var c07Lbl = []string{"0", "1", "2", "3", "4", "5", "6", "7", "8", "9"}
 
 // c07NoNil: no missing node, every node has a kind name, recursively.
@@ -16,6 +16,61 @@ func c07NoNil(n *parser.ASTNode) bool {
 	}
 	for _, c := range n.Children {
 		if !c07NoNil(c) {
+			return false
+		}
+	}
+	return true
+}
+
+func c07Is(n *parser.ASTNode, names ...string) bool {
+	for _, x := range names {
+		if n.Name == x {
+			return true
+		}
+	}
+	return false
+}
+
+// c07Shape: every node has the number and kinds of children its kind requires - the shapes that validation,
+// evaluation and the pretty printer index without checking (written from the grammar in ecal.md).
+func c07Shape(n *parser.ASTNode) bool {
+	c := n.Children
+	ok := true
+	switch {
+	case c07Is(n, parser.NodeIF):
+		ok = len(c) >= 2 && len(c)%2 == 0
+		for i := 0; ok && i < len(c); i += 2 {
+			ok = c[i].Name == parser.NodeGUARD && len(c[i].Children) == 1 && c[i+1].Name == parser.NodeSTATEMENTS
+		}
+	case c07Is(n, parser.NodeLOOP):
+		ok = len(c) == 2 && c[1].Name == parser.NodeSTATEMENTS && c07Is(c[0], parser.NodeGUARD, parser.NodeIN)
+	case c07Is(n, parser.NodeGUARD, parser.NodeNOT, parser.NodeLET, parser.NodeOTHERWISE, parser.NodeFINALLY):
+		ok = len(c) == 1
+	case c07Is(n, parser.NodeASSIGN, parser.NodeKVP, parser.NodePRESET, parser.NodeTIMES, parser.NodeDIV, parser.NodeDIVINT, parser.NodeMODINT,
+		parser.NodeGEQ, parser.NodeLEQ, parser.NodeNEQ, parser.NodeEQ, parser.NodeGT, parser.NodeLT, parser.NodeAND, parser.NodeOR,
+		parser.NodeLIKE, parser.NodeIN, parser.NodeHASPREFIX, parser.NodeHASSUFFIX, parser.NodeNOTIN, parser.NodeMUTEX, parser.NodeIMPORT):
+		ok = len(c) == 2
+	case c07Is(n, parser.NodePLUS, parser.NodeMINUS):
+		ok = len(c) == 1 || len(c) == 2
+	case c07Is(n, parser.NodeRETURN):
+		ok = len(c) <= 1
+	case c07Is(n, parser.NodeTRY):
+		ok = len(c) >= 1 && c[0].Name == parser.NodeSTATEMENTS
+		for i := 1; ok && i < len(c); i++ {
+			ok = c07Is(c[i], parser.NodeEXCEPT, parser.NodeOTHERWISE, parser.NodeFINALLY)
+		}
+	case c07Is(n, parser.NodeEXCEPT):
+		ok = len(c) >= 1 && c[len(c)-1].Name == parser.NodeSTATEMENTS
+	case c07Is(n, parser.NodeFUNC):
+		ok = (len(c) == 2 || len(c) == 3) && c[len(c)-1].Name == parser.NodeSTATEMENTS && c[len(c)-2].Name == parser.NodePARAMS
+	case c07Is(n, parser.NodeSINK):
+		ok = len(c) >= 2 && c[len(c)-1].Name == parser.NodeSTATEMENTS
+	}
+	if !ok {
+		return false
+	}
+	for _, x := range c {
+		if !c07Shape(x) {
 			return false
 		}
 	}
@@ -43,6 +98,8 @@ func c07Check(src string, eval bool) {
 	if !c07NoNil(ast) {
 		return
 	}
+	zz.Assert(c07Shape(ast), "C07.children-as-the-node-kind-requires")
+	ast.Runtime.Validate() // structural walk by the real validator: must not panic
 	parser.PrettyPrint(ast)
 	zz.Reach("printed")
 	if eval {
@@ -76,6 +133,10 @@ var c07Bases = [][]string{
 	{"a", ":=", "{", "\"k\"", ":", "[", "1", ",", "2", "]", "}"},
 	{"sink", "s", "kindmatch", "[", "\"a\"", "]", ",", "{", "a", ";", "b", "}"},
 	{"a", ":=", "f", "(", "1", ",", "b", ".", "c", ")", "[", "0", "]"},
+	{"if", "a", "{", "b", "}", "elif", "c", "{", "d", "}", "else", "{", "e", "}"},
+	{"for", "a", ">", "1", "{", "b", "}"},
+	{"a", "[", "1", "]", ":=", "b", "[", "'x'", "]", ".", "c"},
+	{"if", "a", "{", "b", "}", "elif", "c", "{", "}", "else", "{", "e", "}"},
 }
 
 // VerifC07Mutations: a valid base program with MUT positions replaced by an arbitrary token of the table,
@@ -91,7 +152,24 @@ func VerifC07Mutations() {
 	t := zz.Param("T", 12)
 	for m := 0; m < muts; m++ {
 		pos := zz.Choice("pos"+c07Lbl[m], len(toks))
-		switch zz.Choice("kind"+c07Lbl[m], 3) {
+		switch zz.Choice("kind"+c07Lbl[m], 4) {
+		case 3: // delete a whole block { ... } (a clause left without its block)
+			end := pos
+			if toks[pos] == "{" {
+				depth := 0
+				for j := pos; j < len(toks); j++ {
+					if toks[j] == "{" {
+						depth++
+					} else if toks[j] == "}" {
+						depth--
+						if depth == 0 {
+							end = j
+							break
+						}
+					}
+				}
+			}
+			toks = append(append([]string(nil), toks[:pos]...), toks[end+1:]...)
 		case 0: // replace
 			toks[pos] = c07Texts[zz.Choice("tok"+c07Lbl[m], t)]
 		case 1: // delete
